@@ -4,13 +4,14 @@
      StandardImpl::{write_line, write_exceeded_line, exceeds_max_columns, trim_ascii_prefix,
                     trim_line_terminator, has_line_terminator (via Standard.write_line),
                     write_colored_matches (non-colour skeleton, Standard.write_colored_matches),
-                    sink_fast, sink_fast_multi_line, sink_slow, sink_slow_multi_line (plain form), sink}
+                    sink_fast, sink_fast_multi_line, sink_slow, sink_slow_multi_line,
+                    sink_slow_multi_line_only_matching, sink_slow_multi_per_match, sink}
      impl Sink for StandardSink: matched, context (the same as in Standard.v, calling the impl above)
    crates/printer/src/util.rs
      trim_ascii_prefix
    Colours off (write_colored_line = write_line), no replacement (original_matches = matches).
-   NOT modelled with a limit or --trim: the multi-line -o / --vimgrep paths
-   (sink_slow_multi_line_only_matching, sink_slow_multi_per_match): impl_sink_c uses Standard.v's there.
+   sink_slow_multi_line_only_matching and sink_slow_multi_per_match (-U -o, -U --vimgrep) are mirrored and
+   corresponded; there is no theorem about them (as in Standard.v).
    bstr's grapheme segmentation is third-party: `gends s` = the end offsets of the graphemes of `s`
    (`s.grapheme_indices().map(|(_, end, _)| end)`), a Section variable.  Definitions only. *)
 From RG Require Import Base.Bytes Model.MatchIter Model.Replace Model.Sink Model.Standard.
@@ -154,10 +155,68 @@ Section Cols.
           sink_slow_ml_loop_c r (S count) midx (write_line_term env w)
       end.
 
+    (* inner `while !line.is_empty()` of sink_slow_multi_line_only_matching; write_exceeded_line may move midx *)
+    Fixpoint om_loop_c (fuel : nat) (ls le : nat) (count : nat) (midx : nat) (w : wtr) : nat * wtr :=
+      match fuel with
+      | 0 => (midx, w)
+      | S f =>
+        if Nat.eqb ls le then (midx, w) else
+        let (ms, me) := nth_span (k_matches sk) midx in
+        if Nat.leb me ls then
+          if Nat.ltb (midx + 1) (length (k_matches sk)) then om_loop_c f ls le count (midx + 1) w
+          else (midx, w)
+        else if Nat.ltb ls ms then
+          om_loop_c f (Nat.min le ms) le count midx w
+        else
+          let upto := Nat.min le me in
+          let w := write_prelude cfg path sk (k_off sk + ms) (option_map (fun n => n + count) (k_lnum sk))
+                                 (Some (ms + 1)) w in
+          if exceeds_max_columns (sub (k_bytes sk) ls upto) then
+            let (midx, w) := write_exceeded_line (k_bytes sk) ls upto (k_matches sk) midx w in
+            om_loop_c f upto le count midx w
+          else
+            let w := write_line_term env (write (sub (k_bytes sk) ls upto) w) in
+            om_loop_c f upto le count midx w
+      end.
+    Fixpoint sink_slow_ml_om_loop_c (spans : list (nat * nat)) (count : nat) (midx : nat) (w : wtr) : wtr :=
+      match spans with
+      | [] => w
+      | (s, e) :: r =>
+        let e' := trim_line_terminator (e_lt env) (k_bytes sk) s e in
+        let s' := impl_trim_ascii_prefix (k_bytes sk) s e' in
+        let (midx, w) := om_loop_c (e' - s' + length (k_matches sk) + 1) s' e' count midx w in
+        sink_slow_ml_om_loop_c r (S count) midx w
+      end.
+
+    (* sink_slow_multi_per_match for the match (ms, me); an exceeded line `continue`s, which also skips the
+       per_match_one_line `break` *)
+    Fixpoint pm_lines_c (ms me : nat) (spans : list (nat * nat)) (count : nat) (w : wtr) : wtr :=
+      match spans with
+      | [] => w
+      | (s, e) :: r =>
+        if Nat.leb me s then w
+        else if Nat.leb e ms then pm_lines_c ms me r (S count) w
+        else
+          let w := write_prelude cfg path sk (k_off sk + s) (option_map (fun n => n + count) (k_lnum sk))
+                                 (Some (ms - s + 1)) w in
+          let e' := trim_line_terminator (e_lt env) (k_bytes sk) s e in
+          let s' := impl_trim_ascii_prefix (k_bytes sk) s e' in
+          if exceeds_max_columns (sub (k_bytes sk) s' e') then
+            let w := snd (write_exceeded_line (k_bytes sk) s' e' [(ms, me)] 0 w) in
+            pm_lines_c ms me r (S count) w
+          else
+            let w := pm_inner sk (e' - s' + 3) ms me s' e' w in
+            let w := write_line_term env w in
+            if st_per_match_one_line cfg then w else pm_lines_c ms me r (S count) w
+      end.
+    Definition sink_slow_multi_per_match_c (w : wtr) : wtr :=
+      fold_left (fun w m => pm_lines_c (fst m) (snd m) (line_spans (lt_byte (e_lt env)) (k_bytes sk)) 0 w)
+                (k_matches sk) w.
+
     Definition sink_slow_multi_line_c (w : wtr) : wtr :=
       if st_only_matching cfg then
-        sink_slow_ml_om_loop cfg env path sk (line_spans (lt_byte (e_lt env)) (k_bytes sk)) 0 0 w
-      else if st_per_match cfg then sink_slow_multi_per_match cfg env path sk w
+        sink_slow_ml_om_loop_c (line_spans (lt_byte (e_lt env)) (k_bytes sk)) 0 0 w
+      else if st_per_match cfg then sink_slow_multi_per_match_c w
       else sink_slow_ml_loop_c (line_spans (lt_byte (e_lt env)) (k_bytes sk)) 0 0 w.
 
     (* StandardImpl::sink *)
